@@ -195,6 +195,10 @@ def run_single(c):
     b = [("seq", [Q(1)] * (len(x) + 1))] + list(b[1:])   # keep the case time-varying
   bt = Built()
   filt = build_filter(b, a, c["route"], bt)
+  if len(x) % 2:
+    # a filter may be hashed / kept in a dict before it is used (C05): that must not matter
+    hash(filt)
+    {filt: "kept"}
   N, D = model_polys(b, a, len(x) + 2)
   got = run_and_check(filt, N, D, x, bt, "filter b=%r a=%r route=%s" % (b, a, c["route"]))
   nstreams = sum(1 for cc in b + a if cc[0] != "const")
@@ -280,7 +284,7 @@ def strat_algebra(tier):
   fir = lambda lo, hi: st.lists(coef(lo, hi), min_size=1, max_size=3).map(live)
   return st.integers(3, 7).flatmap(lambda n: st.fixed_dictionaries(dict(
     op=st.sampled_from(["add", "sub", "mul", "scale", "delay", "mul_iir", "add_iir", "neg", "shared_square",
-                        "hub_reuse", "hub_reuse"]),
+                        "hub_reuse", "hub_reuse", "div_delayed_gain"]),
     hub=st.fixed_dictionaries(dict(c0=st.integers(1, 3), c1=st.integers(-3, 3).filter(lambda v: v != 0),
                                    c2=st.integers(-2, 2), d=st.integers(3, 4), extra=st.integers(0, 1),
                                    feedback=st.booleans())),
@@ -294,7 +298,22 @@ def run_algebra(c):
   n = len(x) + 2
   bt = Built()
   one = [("const", 1)]
-  if op == "hub_reuse":
+  if op == "div_delayed_gain":
+    # f / (g * z**-k) with a Stream gain g: the delay cancels against f's own delays and
+    # y[n] = (sum_j f_j[n] x[n-j+k]) / g[n], every g value used once
+    k = c["k"]
+    fb = [("const", 0)] * k + list(c["fb"])
+    f = build_filter(fb, one, "expr", bt)
+    Nf, _ = model_polys(fb, one, n)
+    gspec = c["gb"][0] if c["gb"][0][0] != "const" else ("seq", [Q(2), Q(-1), Q(1, 2), Q(3)] * 3)
+    gspec = (gspec[0], [v if v != 0 else Q(1) for v in gspec[1]]) if gspec[0] in ("seq", "periodic") else \
+      (gspec[0], gspec[1] if gspec[1] != 0 else Q(1))
+    g = bt.real(gspec)
+    real = f / (g * z ** -k)
+    N = {j - k: v for j, v in Nf.items() if j >= k}
+    D = {0: seq_of(gspec, n)}
+    used = (fb, [gspec])
+  elif op == "hub_reuse":
     # a coefficient the user wrapped in thub(stream, n) may be used in exactly n places of the
     # algebra, each of which may multiply it into several terms
     from audiolazy import thub
